@@ -1,5 +1,5 @@
 """Driver of the verification checks (see /verif/check and DESIGN.md §1)."""
-import argparse, fcntl, hashlib, json, os, re, subprocess, sys, time, math
+import argparse, fcntl, glob, hashlib, json, os, re, subprocess, sys, time, math
 from concurrent.futures import ThreadPoolExecutor
 
 ROOT = os.path.dirname(os.path.dirname(os.path.abspath(__file__)))
@@ -310,6 +310,24 @@ def build_harness():
     return rc == 0, out
 
 
+def corpus_inputs(pid):
+    """minimised failing inputs of past disagreements: the replays kept with the seeded changes of this
+    property and anything under corpus/<id>/; run first on every check"""
+    out, seen = [], set()
+    for path in sorted(glob.glob(os.path.join(ROOT, 'seeded', pid + '-*', 'replay.json'))) + sorted(glob.glob(os.path.join(ROOT, 'corpus', pid, '*.json'))):
+        try:
+            r = json.load(open(path))
+        except Exception:
+            continue
+        if r.get('property', pid) != pid or 'input' not in r:
+            continue
+        k = json.dumps(r['input'])
+        if k not in seen:
+            seen.add(k)
+            out.append(r['input'])
+    return out
+
+
 def gen_inputs(pid, tier, seed):
     wd = os.path.join(WORK, pid)
     os.makedirs(wd, exist_ok=True)
@@ -596,6 +614,9 @@ def decide(prop, tier, seed, t0):
     elif ok:
         try:
             inputs, meta = gen_inputs(pid, tier, seed)
+            corp = corpus_inputs(pid)
+            meta['corpus_inputs_run_first'] = len(corp)
+            inputs = corp + inputs
             if prop.get('gen_extra'):
                 inputs = inputs + prop['gen_extra'](tier, seed)
             # corpus first
